@@ -1,2 +1,153 @@
-(* C16 — placeholder while the proofs are being written: see TmplProofs.v *)
-From GT Require Import TmplModel.
+(* C16 — gconfig: env templates resolve exactly and only on selected branches.
+   Property theorems only; every proof is `exact <lemma of TmplProofs>`.
+   TmplModel.match_env is the hand-written recogniser mirroring the anchored pattern of
+   gconfig/yaml_templates.go, resolve_str mirrors MatchAndResolve, subst mirrors
+   parseTemplatedElements, load_full mirrors Builder.FromBytes; tied to the code (and to Go's
+   regexp engine) by the correspondence run of ./check C16.
+   shaped l  :=  l = ${{ w1 env: w2 NAME w3 [|] w4 DEFAULT w5 }}  — the pattern's language
+   written as a decomposition; doc_ok = the documented grammar (DEFAULT only after `|`).   *)
+From Coq Require Import List String Ascii Bool Arith.
+From GT Require Import GConfModel GConfProofs TmplModel TmplProofs.
+Import ListNotations.
+
+(* every string of the documented grammar — any name in [A-Za-z0-9_]+, optional default,
+   any inner spacing — is recognised with exactly that name and that default *)
+Theorem C16_grammar : forall sh, doc_ok sh ->
+  match_env (string_of_list_ascii (render sh))
+  = Some (string_of_list_ascii (nm sh), string_of_list_ascii (df sh)).
+Proof. exact grammar_string. Qed.
+
+(* the matcher accepts exactly the template-shaped strings ... *)
+Theorem C16_accepts_iff : forall s, match_env s <> None <-> shaped (list_ascii_of_string s).
+Proof. exact accepted_iff_shaped. Qed.
+
+(* ... and what it returns are components of the string: the maximal name and the default *)
+Theorem C16_captures : forall s n d,
+  match_env s = Some (n, d) ->
+  exists sh, shape_ok sh /\ list_ascii_of_string s = render sh /\
+             n = string_of_list_ascii (nm sh) /\ d = string_of_list_ascii (df sh) /\
+             starts_nonword (w3 sh ++ pipe_s (has_pipe sh) ++ w4 sh ++ df sh ++ w5 sh ++ close_s).
+Proof. exact captures_string. Qed.
+
+(* every other string is left untouched, whatever the environment *)
+Theorem C16_untouched : forall env s,
+  ~ shaped (list_ascii_of_string s) -> resolve_str env s = Ok s.
+Proof. exact untouched_unless_shaped. Qed.
+
+(* the near-misses the property names: leading text, trailing text, single braces, no `env:` *)
+Theorem C16_reject_leading : forall l, (forall r, l <> open_s ++ r) -> match_env_l l = None.
+Proof. exact reject_no_open. Qed.
+
+Theorem C16_reject_trailing : forall l, (forall b, l <> b ++ close_s) -> match_env_l l = None.
+Proof. exact reject_no_close. Qed.
+
+Theorem C16_reject_first_char : forall c l, c <> "$"%char -> match_env_l (c :: l) = None.
+Proof. exact reject_first_char. Qed.
+
+Theorem C16_reject_last_char : forall l c, c <> "}"%char -> match_env_l (l ++ [c]) = None.
+Proof. exact reject_last_char. Qed.
+
+Theorem C16_reject_single_open : forall c l,
+  c <> "{"%char -> match_env_l ("$" :: "{" :: c :: l)%char = None.
+Proof. exact reject_single_open. Qed.
+
+Theorem C16_reject_single_close : forall l c,
+  c <> "}"%char -> match_env_l (l ++ [c; "}"%char]) = None.
+Proof. exact reject_single_close. Qed.
+
+Theorem C16_reject_missing_env : forall w r,
+  Forall sp w -> starts_nonspace r -> (forall r', r <> env_s ++ r') ->
+  match_env_l (open_s ++ w ++ r) = None.
+Proof. exact reject_no_env. Qed.
+
+(* the three-way outcome: value if set (even empty), else the default with surrounding double
+   quotes stripped, else an error *)
+Theorem C16_resolve : forall env s n d,
+  match_env s = Some (n, d) ->
+  resolve_str env s =
+  match assoc n env with
+  | Some v => Ok v
+  | None => match d with EmptyString => Err | _ => Ok (trim_quotes d) end
+  end.
+Proof. exact resolve_three_way. Qed.
+
+Theorem C16_trim_quotes : forall q1 m q2,
+  Forall isq q1 -> Forall isq q2 -> starts_nonquote m -> starts_nonquote (rev m) ->
+  trim_quotes_l (q1 ++ m ++ q2) = m.
+Proof. exact trim_quotes_spec. Qed.
+
+(* the template pass fails exactly when some string of the tree it runs over fails *)
+Theorem C16_subst_error_iff : forall env t,
+  subst env t = Err <-> exists s, In s (strings_of t) /\ resolve_str env s = Err.
+Proof. exact subst_err_iff. Qed.
+
+(* composition with C03: loading is the template pass over the resolved document ... *)
+Theorem C16_load_is_spec : forall dims env t p,
+  WF dims p t -> load_full dims env t = load_full_spec dims env t.
+Proof. exact load_full_is_spec. Qed.
+
+(* ... so it succeeds iff resolution succeeds and every template of the RESOLVED document
+   resolves ... *)
+Theorem C16_selected_only : forall dims env t,
+  load_full_spec dims env t <> Err <->
+  exists kv, load_spec dims t = Ok kv /\
+             forall s, In s (strings_of (Mp kv)) -> resolve_str env s <> Err.
+Proof. exact load_full_ok_iff. Qed.
+
+(* ... and nothing in an entry that is not active — an unset variable included — can change
+   the outcome *)
+Theorem C16_unselected_irrelevant : forall dims env t t',
+  Agree dims t t' -> load_full_spec dims env t = load_full_spec dims env t'.
+Proof. exact agree_load_full. Qed.
+
+(* non-vacuity *)
+Local Open Scope string_scope.
+Definition b (s : string) : bytes := list_ascii_of_string s.
+Example C16_example_grammar :
+  doc_ok {| w1 := b "  "; w2 := b ""; nm := b "MY_ENV_VAR"; w3 := b "  "; has_pipe := true;
+            w4 := b "  "; df := b "some-default"; w5 := b "  " |} /\
+  match_env "${{  env:MY_ENV_VAR  |  some-default  }}" = Some ("MY_ENV_VAR", "some-default") /\
+  match_env "${{env:A}}" = Some ("A", "") /\
+  match_env "x${{env:A}}" = None /\ match_env "${{env:A}} y" = None /\
+  match_env "${env:A}" = None /\ match_env "${{A}}" = None.
+Proof.
+  split; [|repeat split; vm_compute; reflexivity].
+  unfold doc_ok, shape_ok. cbn.
+  repeat split; try (repeat constructor; fail); try discriminate.
+  right. split; [reflexivity|]. exists (b "some-defaul"), "t"%char. split; reflexivity.
+Qed.
+
+Example C16_example_resolve :
+  resolve_str [("A", "")] "${{env:A|d}}" = Ok "" /\
+  resolve_str [] "${{env:A|""quoted""}}" = Ok "quoted" /\
+  resolve_str [] "${{env:A|""""}}" = Ok "" /\
+  resolve_str [] "${{ env: A }}" = Err /\
+  resolve_str [] "${{env:A}}}}" = Ok "}}".   (* accepted by the pattern: default without `|` *)
+Proof. repeat split; vm_compute; reflexivity. Qed.
+
+Example C16_example_unselected :
+  load_full [mk_dim T1 0] []
+    (Mp [("k", Mp [("D1b", Str "${{env:UNSET}}"); ("default", Str "fine")])])
+  = Ok [("k", Str "fine")] /\
+  load_full [mk_dim T1 1] []
+    (Mp [("k", Mp [("D1b", Str "${{env:UNSET}}"); ("default", Str "fine")])])
+  = Err.
+Proof. split; vm_compute; reflexivity. Qed.
+
+Print Assumptions C16_grammar.
+Print Assumptions C16_accepts_iff.
+Print Assumptions C16_captures.
+Print Assumptions C16_untouched.
+Print Assumptions C16_reject_leading.
+Print Assumptions C16_reject_trailing.
+Print Assumptions C16_reject_first_char.
+Print Assumptions C16_reject_last_char.
+Print Assumptions C16_reject_single_open.
+Print Assumptions C16_reject_single_close.
+Print Assumptions C16_reject_missing_env.
+Print Assumptions C16_resolve.
+Print Assumptions C16_trim_quotes.
+Print Assumptions C16_subst_error_iff.
+Print Assumptions C16_load_is_spec.
+Print Assumptions C16_selected_only.
+Print Assumptions C16_unselected_irrelevant.
